@@ -12,6 +12,8 @@ def run(tier, replay=None):
         crate = mir.load(cfg)
         r = dec.roles_sbd(crate)
         dec.c02_block(rep, crate, cfg, r)
+        # necessary for 'never gives up on a decodable set': every delivered packet is recorded (intake rules of C08-R1)
+        dec.c08_block_decoder(rep, crate, cfg)
         dec.c01_solve(rep, crate, cfg, r)
         # the linear system the decoder solves has one row per received symbol and the RFC's pre-code rows
         c04.run_ldpc_hdpc(rep, crate, cfg)
